@@ -257,7 +257,6 @@ Section Hist.
 End Hist.
 
 (* ---------- 3. (C) dead callables never run ---------- *)
-Definition dead_holder (h : Z) (st : state) : Prop := memz h (s_dead st) = true.
 
 Definition dead_I (h : Z) (s : list event) (st : state) : Prop :=
   dead_holder h st /\ Forall (fun e => e_holder e <> h) s.
@@ -334,8 +333,6 @@ Proof.
 Qed.
 
 (* ---------- 4. (B) cancelled events never run ---------- *)
-Definition cancelled_id (u : Z) (st : state) : Prop :=
-  u < s_uid st /\ forall x, In x (s_events st) -> e_uid x = u -> e_cancelled x = true.
 
 Definition cancelled_I (u : Z) (s : list event) (st : state) : Prop :=
   cancelled_id u st /\ Forall (fun e => e_uid e <> u) s.
